@@ -241,6 +241,59 @@ Qed.
 
 End R.
 
+
+(** * one-hop paths: at most two AS steps *)
+Section OneHop.
+Context {key : Type}.
+Variable mac : key -> N -> N -> N -> N -> N -> N.
+
+Lemma get_peer_nonzero (t : topology key) ia eg l ia' if' :
+  wf_topo t = true -> scion_link t ia eg = Some l -> get_peer l ia = Some (ia', if') -> (if' =? 0) = false.
+Proof.
+  unfold wf_topo, scion_link, get_peer. intros W F G.
+  apply find_some in F. destruct F as (Hin & _).
+  rewrite forallb_forall in W. specialize (W l Hin).
+  apply andb_true_iff in W. destruct W as (W1 & W2). apply negb_true_iff in W1, W2.
+  destruct (l_a l =? ia); [inversion G; subst; exact W2|].
+  destruct (l_b l =? ia); [inversion G; subst; exact W1|discriminate].
+Qed.
+
+Lemma onehop_external_terminal ia K i pk :
+  (i =? 0) = false -> forall eg, fst (sdk_route_onehop mac ia K i pk) <> AFwd eg.
+Proof.
+  intros E eg. unfold sdk_route_onehop. rewrite E.
+  destruct (h_mac (o_h2 pk) =? 0); [destruct (negb (i_cons (o_info pk)))|];
+    cbn; try destruct (ia =? o_dst pk); cbn; discriminate.
+Qed.
+
+Lemma sdk_onehop_bound fuel (t : topology key) ia i pk tr e :
+  wf_topo t = true ->
+  sdk_onehop_sim mac fuel t ia i pk = (tr, e) ->
+  (length tr <= 2)%nat /\ ((2 <= fuel)%nat -> e <> EndFuel).
+Proof.
+  intros W. destruct fuel as [|[|f]]; cbn [sdk_onehop_sim].
+  - intros H; inversion H; subst. cbn. split; [lia|intros; lia].
+  - destruct (find_as t ia); [|intros H; inversion H; subst; cbn; split; [lia|intros; lia]].
+    destruct (sdk_route_onehop mac ia (a_key a) i pk) as [act pk'].
+    destruct act; try (intros H; inversion H; subst; cbn; split; [lia|intros; lia]).
+    destruct (scion_link t ia eg); [|intros H; inversion H; subst; cbn; split; [lia|intros; lia]].
+    destruct (get_peer l ia) as [[ia' if']|]; [|intros H; inversion H; subst; cbn; split; [lia|intros; lia]].
+    destruct (find_as t ia'); intros H; inversion H; subst; cbn; split; try lia; intros; lia.
+  - destruct (find_as t ia) as [a|]; [|intros H; inversion H; subst; cbn; split; [lia|congruence]].
+    destruct (sdk_route_onehop mac ia (a_key a) i pk) as [act pk'] eqn:Er.
+    destruct act; try (intros H; inversion H; subst; cbn; split; [lia|congruence]).
+    destruct (scion_link t ia eg) as [l|] eqn:El; [|intros H; inversion H; subst; cbn; split; [lia|congruence]].
+    destruct (get_peer l ia) as [[ia' if']|] eqn:Ep; [|intros H; inversion H; subst; cbn; split; [lia|congruence]].
+    pose proof (get_peer_nonzero t ia eg l ia' if' W El Ep) as Enz.
+    destruct (find_as t ia') as [a'|] eqn:Ea'; [|intros H; inversion H; subst; cbn; split; [lia|congruence]].
+    cbn [sdk_onehop_sim]. try rewrite Ea'.
+    pose proof (onehop_external_terminal ia' (a_key a') if' pk' Enz) as T.
+    destruct (sdk_route_onehop mac ia' (a_key a') if' pk') as [act2 pk2]. cbn [fst] in T.
+    destruct act2; try (intros H; inversion H; subst; cbn; split; [lia|congruence]).
+    exfalso. eapply T. reflexivity.
+Qed.
+End OneHop.
+
 (** * the segment-change table, by computation over all 16 pairs *)
 Lemma seg_change_table_nonpeer :
   forall a b, involves_peer a b = false -> sdk_seg_change_ok a b = spec_seg_change_ok a b.
